@@ -25,3 +25,6 @@ def run(ctx):
                        keyfn=lambda rec, clause: "CoordTree%dD:%s" % (rec["dim"], clause))
     import c08_tris
     c08_tris.run(ctx)
+    # hierarchies of render objects (binary and wider, nested joins): nearest hit = brute force over the parts
+    from props import C20
+    C20.scene_stage(ctx)
